@@ -4,6 +4,7 @@ import verif as V
 
 PROP = "C15"
 PROPS = "props/C15.v"
+PROPS_B = "props/C15b.v"     # the command from argv (coq/c15/Main.v): parse_flags -> runInternal -> the run loop
 GOJQ_BIN = os.path.join(V.BUILD, "gojq-c15")
 
 # the documented tables, used only when the translator cannot read the current tree (the tie is then
@@ -47,8 +48,11 @@ ASSUMPTIONS = [
     "writes to stdout/stderr do not fail (bytes.Buffer / pipe that is read to the end)",
     "the operating system passes the low 8 bits of the status given to os.Exit to the parent (os_status = mod 256); "
     "checked against the real binary in the thorough tier",
-    "flag parsing (cli/flags.go) is not modelled: the harness tells the model which cases are usage errors "
-    "(it injected the offending flag itself)",
+    "streams c15 / c15replay: the harness tells the model which cases are usage errors; stream c15argv: the flag parser model "
+    "(coq/c08/Flags.v over the regenerated option table) and the pre-loop part of runInternal (coq/c15/Main.v) derive everything "
+    "from the argument vector",
+    "c15argv: colour and YAML renderings of single values are taken from the encoders (cli.VerifC12Encode, go-yaml) as world "
+    "functions; the YAML encoder is assumed not to fail; queries mentioning input / debug / stderr are skipped",
     "message texts are passed through (library errors) or matched as 'gojq: <non-empty>\\n' (command's own wording)",
 ]
 
@@ -71,18 +75,23 @@ def build_binary(c):
 
 def prepare(c):
     """regen -> prove -> build harness and model. Returns (proved, exe_h, exe_m)."""
+    okf, logf = V.regen(["flagtable"])
+    if not okf:
+        c.broken_obligation("translator flagtable (type flagopts of cli/cli.go changed shape)", V.tail(logf, 15))
     ok, log = V.regen(["clitables"])
     if not ok:
         c.broken_obligation("translator clitables (cli/cli.go, cli/error.go, error.go, func.go changed shape)", V.tail(log, 15))
         open(os.path.join(V.COQ, "gen", "GenCliTables.v"), "w").write(DOCUMENTED_TABLES)
         c.notes.append("translator failed; documented tables substituted for the correspondence run")
     proved = c.prove(PROPS)
+    proved = c.prove(PROPS_B) and proved
     exe_h, hlog = V.build_harness("c15")
     exe_m = None
     if exe_h is None:
         c.broken_correspondence("harness-build", None, V.tail(hlog, 40))
     else:
-        exe_m, mlog = V.build_model("c15", "extract/ExtractC15.v", "c15model", deps=["c15/Run.v"])
+        # c15/MainRun.v judges the (argv ...) lines with cli_main and every other line exactly as c15/Run.v does
+        exe_m, mlog = V.build_model("c15b", "extract/ExtractC15b.v", "c15bmodel", deps=["c15/MainRun.v"])
         if exe_m is None:
             c.broken_correspondence("model-extraction", None, V.tail(mlog, 40))
     return proved, exe_h, exe_m
@@ -113,6 +122,28 @@ def judge(c, exe_m, cases, stream):
     return mism, smism
 
 
+def judge_argv(c, exe_m, cases):
+    cmds = load_cases(cases)
+    lines = [l for l in open(cases).read().split("\n") if l]
+    idx = {}
+    for i, l in enumerate(lines):
+        idx.setdefault(l, i)
+    mism = V.compare_model(c, exe_m, cases, "c15argv")
+    for line, verdict in mism[:10]:
+        i = idx.get(line)
+        case = cmds[i] if i is not None and i < len(cmds) and cmds[i] else line
+        if verdict.startswith("(bad job"):
+            c.broken_correspondence("c15argv", case, "the model derives another job (query source / bindings / files) from the argv "
+                                    "than the harness read off the option struct: " + verdict[:600])
+        elif verdict.startswith("(bad"):
+            # by MainProofs.main_result the model IS the specified function of the library's outcomes for this argv
+            c.failing_input("command started from this argument vector differs from the specified function of the library's "
+                            "outcomes (stdout / status / stderr)", case, "expected " + verdict[:400] + " ; case line: " + line[:1500])
+        else:
+            c.broken_correspondence("c15argv", case, "model verdict: " + verdict[:400] + " ; case line: " + line[:1500])
+    return mism
+
+
 def run(tier, seed):
     c = V.Check(PROP, tier, seed)
     c.assumptions += ASSUMPTIONS
@@ -132,6 +163,14 @@ def run(tier, seed):
             judge(c, exe_m, cases, "c15")
             for v in (st.get("impl_violations") or []):
                 c.failing_input("impl-oracle", v, v)
+        # the command from argv: random argument vectors judged by the extracted cli_main
+        na = 3000 if tier == "quick" else 80000
+        rc, out, cases_a, st_a = V.run_harness("c15", "c15argv", seed, na, tier)
+        st = dict(st, argv=st_a)
+        if rc != 0:
+            c.broken_correspondence("harness-run:c15argv", None, V.tail(out, 40))
+        else:
+            judge_argv(c, exe_m, cases_a)
     rule = ("(a) every combination of -r -j --raw-output0 -c --tab -e -n -s (256) x 9 key queries (error on one input, NUL "
             "string, halt mid-stream, halt_error 257, absent/falsy last output) x 3 (quick) or 8 (thorough) input streams, "
             "--indent n rotating over 0..9; (b) n random queries (1-4 comma items drawn from values / error / halt / "
@@ -139,7 +178,14 @@ def run(tier, seed):
             "malformed tail, over all 256 flag masks, plus n/2 without -n/-s; (c) usage, option-value, parse and compile "
             "errors under the flag masks; (d) thorough: n/20 cases on the built cmd/gojq binary (status as seen by the "
             "parent). Every case is judged twice by extracted Gallina: against the model (Cli.v) and against the "
-            "declarative specification (Spec.v). distinct = distinct case lines")
+            "declarative specification (Spec.v); (e) stream c15argv: 3000 (quick) / 80000 (thorough) random ARGUMENT VECTORS "
+            "(boolean flags long / short / clustered incl. -C -M --yaml-output -R, --indent in and out of range with = / separate / "
+            "missing value, --arg / --argjson / --slurpfile / --rawfile with good, undecodable and missing values, --args / --jsonargs, "
+            "-f with good / bad / missing query files, -L, -h / --version, unknown flags, `--`, extra input files good / malformed / "
+            "missing, rejected GOJQ_COLORS) run through cli.VerifRun and judged by the extracted cli_main (coq/c15/Main.v), which "
+            "derives options, bindings, query source and input files from the argv itself (must equal the harness's reading of the "
+            "option struct) and is given the library's outcomes observed in-process: stdout bytes, status, stderr. "
+            "distinct = distinct case lines")
     return c.finish(rule, extra_cov=dict(harness_stats=st))
 
 
